@@ -186,7 +186,7 @@ def check_triple(res, ns, nswin, overlap, WG, fs=30000.0):
     # the answers are facts about (ns, nswin, overlap) and the arguments of the call, not about what the object was asked before: asked again
     # after everything above - with another sampling rate, after the caller edited the arrays it was handed - every answer is the same
     try:
-        fs2 = fs * 3.7 if fs != 1 else 30000.0
+        fs2 = 30000.27 if fs == 30000.0 else fs * 3.7 + 0.13       # sampling rates are calibrated values, rarely a whole number of Hz
         ts2 = wg.tscale(fs2)
         exp2 = (first + last - 1) / 2 / fs2
         res.check(ts2.shape == exp2.shape and np.allclose(ts2, exp2, rtol=1e-12, atol=0), "tscale:second-call-other-rate",
